@@ -79,7 +79,7 @@ class TrioRun:
     runtime = "trio"
 
     def __init__(self, world: World, pool_cfg, callers: list[Caller], *, choices=(), segs=(), allow_server_close=0,
-                 advances=(), dsegs=(), on_quiescence=None, step_limit=4000, epilogue=None, gate_h2=True):
+                 advances=(), dsegs=(), on_quiescence=None, step_limit=4000, epilogue=None, gate_h2=True, late=(), bursts=()):
         self.world = world
         self.pool_cfg = pool_cfg
         self.callers = callers
@@ -114,6 +114,12 @@ class TrioRun:
         self.shared_ssl_context = False
         self.pools: list = []
         self.epilogue_stuck = False
+        # "the loop is late": after a progress action the clock jumps to the earliest pending deadline before anybody else runs, so that a wake-up
+        # and a timeout fall into the same loop iteration (cyclic list of 0/1 choices; empty = never)
+        self.late = list(late)
+        self.li = 0
+        self.bursts = list(bursts)  # cyclic list: 0 = one action per period, k > 0 = also apply the (k-1)-th other enabled action
+        self.bi = 0
         self.winding_down = False
 
     # ------------------------------------------------------------------ gate
@@ -346,7 +352,14 @@ class TrioRun:
         elif kind == "server_close":
             self.allow_server_close -= 1
             act[1].server_close()
-        elif kind == "advance":
+        if kind in ("op", "emit", "deliver", "release", "server_close") and self.late:
+            late = self.late[self.li % len(self.late)]
+            self.li += 1
+            t = self._next_deadline()
+            if late and t is not None and t > self.world.clock.now:
+                self.world.clock.now = t
+                self.log.append((self.steps, "late-loop", t))
+        if kind == "advance":
             dt = self.advances.pop(0)
             now = self.world.clock.now
             t = self._next_deadline()
@@ -401,6 +414,16 @@ class TrioRun:
                         self.overflow = True
                         break
                     await self.apply(self._choose(acts))
+                    if self.bursts:
+                        # two things may happen "at once": a second action is applied before anybody runs, so that two callers are runnable in the same
+                        # period and interleave at their own suspension points (not only at network operations)
+                        b = self.bursts[self.bi % len(self.bursts)]
+                        self.bi += 1
+                        if b:
+                            more = [a for a in self.enabled() if a[0] in ("op", "start", "release", "deliver", "emit")]
+                            if more:
+                                self.steps += 1
+                                await self.apply(more[(b - 1) % len(more)])
                 # ---- wind down: nothing is gated any more
                 self.winding_down = True
                 self.world.agate = None
@@ -482,9 +505,28 @@ class TrioRun:
 
         cls.__enter__, cls.__exit__ = enter, exit_
         self._shield_cls = cls
+        # "late loop" at the finest grain: time may pass right after a pool event has been set, before the woken waiter runs, so that its
+        # wake-up and its deadline fall into the same loop iteration
+        ev_cls = sync_mod.AsyncEvent
+        self._orig_event_set = ev_cls.set
+
+        def set_(ev):
+            run._orig_event_set(ev)
+            if not run.late:
+                return
+            late = run.late[run.li % len(run.late)]
+            run.li += 1
+            t = run._next_deadline()
+            if late and t is not None and t > run.world.clock.now:
+                run.world.clock.now = t
+                run.log.append((run.steps, "late-loop", t))
+
+        ev_cls.set = set_
+        self._event_cls = ev_cls
 
     def _remove_shield_probe(self):
         self._shield_cls.__enter__, self._shield_cls.__exit__ = self._orig_enter, self._orig_exit
+        self._event_cls.set = self._orig_event_set
 
     def run(self):
         _deterministic_scheduling()
